@@ -1,5 +1,131 @@
-import StraxModel.Model.Basic
+import StraxModel.Lemmas.Mailbox
+/-
+  C13 — production is limited by demand and buffer capacity: the mailbox-level theorems.
+  (Pipeline-level statements — bound on the emissions after the consumer stops — live in Props/C13Net.lean.)
+
+  `lazy_gate` is about the rule `_can_fetch` uses to decide that "nobody still has to wake up":
+    * `GateRule.lowest`  `len(heap) and any(x is not None and x <= lowest …)`   — the code as found (defect D6)
+    * `GateRule.hasMsg`  `any(x is not None and self._has_msg(x) …)`            — the repaired rule
+  The model carries both; the check reads off `/repo`'s source which one is in force.
+-/
 namespace Strax.C13
-open Strax
+open Strax Strax.Mailbox
+
+/-- capacity, restated for pipeline mailboxes: `ThreadedMailboxProcessor` overwrites `max_messages` on every
+mailbox, so a lazy mailbox inside a pipeline has a finite capacity too and never buffers more -/
+theorem capacity_inv (c : Config) (s : Sys) (h : Reachable c s) (k : Nat) (hc : c.cap = some k) :
+    s.mb.heap.length ≤ k := by
+  have hs := Static.reachable h
+  have : s.mb.cap = c.cap := congrArg (fun x => x.1) hs
+  exact (Inv.reachable h).mb.capOk k (by rw [this, hc])
+
+/-- **the lazy gate** (repaired rule): in every reachable state of a lazy mailbox in which the sender is
+about to advance the source (`spc = fetch`: its next action is `next(iterable)`) and the mailbox has not been
+killed, some driving subscriber waits for a message number that is not in the buffer.
+The hypothesis `killed = false` is necessary: `_can_fetch` answers `True` on a killed mailbox so that the
+sender runs into `send` and finds out; after a kill without `upstream` every `send` is dropped and
+`_send_from` drains the whole source without any demand. -/
+theorem lazy_gate (c : Config) (s : Sys) (h : Reachable c s) (hr : c.gateRule = .hasMsg) (hl : c.lazy = true)
+    (hpc : s.spc = .fetch) (hk : s.mb.killed = false) : GateOk s.mb := by
+  have hs := Static.reachable h
+  have e2 : s.mb.lazy = c.lazy := congrArg (fun x => x.2.1) hs
+  have e3 : s.mb.gateRule = c.gateRule := congrArg (fun x => x.2.2.1) hs
+  exact Gate.reachable h hpc (by rw [e2, hl]) hk (by rw [e3, hr])
+
+/-- the same as a statement about transitions: every step of the sender that consumes an item of the source
+starts in a state satisfying the gate condition -/
+theorem lazy_gate_step (c : Config) (s s' : Sys) (h : Reachable c s) (hr : c.gateRule = .hasMsg) (hl : c.lazy = true)
+    (hst : step s .sender = some s') (hadv : s'.prog ≠ s.prog) (hk : s.mb.killed = false) : GateOk s.mb := by
+  have hpc : s.spc = .fetch := by
+    simp only [step, stepSender] at hst
+    split at hst
+    · split at hst
+      · simp at hst
+      · simp only [Option.some.injEq] at hst; subst hst; exact absurd rfl hadv
+    · assumption
+    · split at hst
+      · simp at hst
+      all_goals (simp only [Option.some.injEq] at hst; subst hst; exact absurd rfl hadv)
+    · split at hst
+      · simp at hst
+      all_goals (simp only [Option.some.injEq] at hst; subst hst; exact absurd rfl hadv)
+    · simp only [Option.some.injEq] at hst; subst hst; exact absurd rfl hadv
+    · simp at hst
+    · simp at hst
+  exact lazy_gate c s h hr hl hpc hk
+
+/-! ### the rule as found (D6) -/
+
+/-- a driving subscriber `R0` and a lagging non-driving one `R1`, two messages, no capacity limit -/
+def d6Cfg : Config :=
+  { cap := none, lazy := true, gateRule := .lowest, drive := [true, false],
+    prog := [.item none (.plain 10), .item none (.plain 20)], workers := [], killers := [] }
+
+/-- `R0` asks for 0, gets it, asks for 1; the sender sends 1 (notifying `R0`, which is not scheduled) and
+passes the gate again: `waiting_for = [1, None]`, heap `{0, 1}`, and `1 <= lowest = 0` is false -/
+def d6Sched : List ThreadId :=
+  [.sender, .reader 0, .sender, .sender, .sender, .reader 0, .reader 0, .sender, .sender, .sender, .sender]
+
+/-- decidable form of `GateOk` -/
+def gateOkB (mb : MB) : Bool :=
+  mb.subs.any fun sub => sub.canDrive && (match sub.waitingFor with
+    | some x => !hasNum mb.heap x
+    | none => false)
+
+theorem gateOkB_iff (mb : MB) : gateOkB mb = true ↔ GateOk mb := by
+  simp only [gateOkB, GateOk, List.any_eq_true, Bool.and_eq_true]
+  constructor
+  · rintro ⟨sub, hm, hd, hw⟩
+    cases hx : sub.waitingFor with
+    | none => simp [hx] at hw
+    | some x => exact ⟨sub, hm, hd, x, hx, by simpa [hx] using hw⟩
+  · rintro ⟨sub, hm, hd, x, hx, hn⟩
+    exact ⟨sub, hm, hd, by simp [hx, hn]⟩
+
+/-- with the rule as found, `lazy_gate` is false: a reachable state (by the schedule above) of a lazy,
+un-killed mailbox whose sender is about to advance the source although the only driving subscriber waits
+for message 1, which is already in the buffer -/
+theorem lazy_gate_old_counterexample :
+    ∃ s, Reachable d6Cfg s ∧ d6Cfg.lazy = true ∧ s.spc = .fetch ∧ s.mb.killed = false ∧ ¬ GateOk s.mb := by
+  have hrun : ∃ s, run? (init d6Cfg) d6Sched = some s ∧ s.spc = .fetch ∧ s.mb.killed = false ∧ gateOkB s.mb = false := by
+    decide
+  obtain ⟨s, h1, h2, h3, h4⟩ := hrun
+  refine ⟨s, Reachable.of_run h1, rfl, h2, h3, ?_⟩
+  rw [← gateOkB_iff, h4]; simp
+
+/-- what the rule as found does guarantee, at the moment the gate lets the sender through (un-killed
+mailbox): a driving subscriber waits for a number `x` that is missing from the buffer OR some message with a
+lower number is still buffered (some subscriber lags behind the driver: exactly the D6 situation) -/
+theorem lazy_gate_old_partial (c : Config) (s : Sys) (mb' : MB) (h : Reachable c s) (hr : c.gateRule = .lowest)
+    (hg : s.mb.gateStep = some (true, mb')) (hk : s.mb.killed = false) : GateWeak s.mb := by
+  have hs := Static.reachable h
+  have e3 : s.mb.gateRule = c.gateRule := congrArg (fun x => x.2.2.1) hs
+  simp only [MB.gateStep] at hg
+  split at hg
+  · simp at hg
+  · split at hg
+    · rename_i hc; exact canFetch_gateWeak hc hk (by rw [e3, hr])
+    · simp at hg
+
+/-- … so the gate is right whenever no message below the awaited number is buffered (no lagging reader) -/
+theorem lazy_gate_old_no_lag (c : Config) (s : Sys) (mb' : MB) (h : Reachable c s) (hr : c.gateRule = .lowest)
+    (hg : s.mb.gateStep = some (true, mb')) (hk : s.mb.killed = false)
+    (hlag : ∀ sub ∈ s.mb.subs, ∀ x, sub.waitingFor = some x → ∀ e ∈ s.mb.heap, x ≤ e.1) : GateOk s.mb := by
+  obtain ⟨sub, hm, hd, x, hx, hor⟩ := lazy_gate_old_partial c s mb' h hr hg hk
+  refine ⟨sub, hm, hd, x, hx, ?_⟩
+  rcases hor with h1 | ⟨e, he, hlt⟩
+  · exact h1
+  · have := hlag sub hm x hx e he; omega
+
+/-! ### non-vacuity -/
+
+/-- the repaired rule on the D6 schedule: the second pass through the gate is refused — the sender blocks on
+`_fetch_new_condition` instead of reaching `fetch` -/
+example : ∃ s, run? (init { d6Cfg with gateRule := .hasMsg }) d6Sched = some s ∧
+    s.spc = .gate ∧ s.mb.fetchFlag = some false := by decide
+
+/-- a lazy run under the repaired rule in which the sender does reach `fetch` with live demand -/
+example : ∃ s, run? (init { d6Cfg with gateRule := .hasMsg }) [.sender, .reader 0, .sender] = some s ∧
+    s.spc = .fetch ∧ s.mb.killed = false ∧ gateOkB s.mb = true := by decide
 
 end Strax.C13
